@@ -279,7 +279,8 @@ theorem parseLine_some {fs : List Bytes} {b : Bed} (h : parseLine fs = some b) :
     inRange b.chromStart ∧ inRange b.chromEnd ∧ inRange b.score ∧
     inRange b.thickStart ∧ inRange b.thickEnd ∧ inRange b.blockCount ∧
     (∀ i ∈ b.blockSizes, inRange i) ∧ (∀ i ∈ b.blockStarts, inRange i) ∧
-    (b.blockSizes.length : Int) = b.blockCount ∧ (b.blockStarts.length : Int) = b.blockCount ∧
+    (fs.length > 10 → (b.blockSizes.length : Int) = b.blockCount) ∧
+    (fs.length > 11 → (b.blockStarts.length : Int) = b.blockCount) ∧
     truncate fs.length b = b := by
   unfold parseLine at h
   simp only at h
@@ -301,8 +302,10 @@ theorem parseLine_some {fs : List Bytes} {b : Bed} (h : parseLine fs = some b) :
             have hf : ∀ i, fs.length ≤ i → fs[i]?.getD [] = [] := by
               intro i hi; rw [List.getElem?_eq_none hi]; rfl
             have hstrand' : validStrand (fs[5]?.getD []) = true := by simpa using hstrand
-            have hbs' : (bs.length : Int) = bc := by simpa using hbs
-            have hbst' : (bst.length : Int) = bc := by simpa using hbst
+            have hbs' : fs.length > 10 → (bs.length : Int) = bc := by
+              intro hgt; exact Classical.not_not.mp (fun hne => hbs ⟨hgt, hne⟩)
+            have hbst' : fs.length > 11 → (bst.length : Int) = bc := by
+              intro hgt; exact Classical.not_not.mp (fun hne => hbst ⟨hgt, hne⟩)
             refine ⟨by omega, by omega, rfl, rfl, hstrand', atoi_range h1, atoi_range h2,
               optInt_range h4, optInt_range h6, optInt_range h7, optInt_range h9,
               parseIntList_range h10, parseIntList_range h11, hbs', hbst', ?_⟩
@@ -391,8 +394,8 @@ theorem accepted_WF (e : Ending) (x : Bytes) (b : Bed) (hm : Item.ok b ∈ decod
         have : c = 35 := by simpa using h35
         subst this
         simp [isSkipped] at hsk
-  · rw [htr]; exact hbs
-  · rw [htr]; exact hbst
+  · exact hbs
+  · exact hbst
 
 theorem fromLines_fail_getLast (ls : List Bytes) : ∀ nf,
     (fromLines .fail nf ls).getLast? = some Item.err := by
